@@ -24,6 +24,8 @@ def roundI (x : R) : Int :=
   let f := x.floor
   let d := x - (f : Rat)
   if d < 1/2 then f else if d > 1/2 then f + 1 else if f % 2 = 0 then f else f + 1
+/-- Python `round(x, n)` for a float: round-half-even of the EXACT value at n decimals -/
+def roundDec (n : Nat) (x : R) : R := ((roundI (x * ((10 ^ n : Nat) : Rat)) : Int) : Rat) / ((10 ^ n : Nat) : Rat)
 /-- Python 3.12 `sum(xs)` over floats; exact in ℚ -/
 def pysum (xs : List R) : R := xs.foldl (· + ·) 0
 /-- exact rational value (identity here) -/
